@@ -444,6 +444,9 @@ func (m *coreMon) check(op string, res string, cur *coreSnap) {
 			}
 		}
 	}
+	// --- w-coreb: C03 frame when the punished sequencer belongs to another rollapp (core_c03x_test.go) ---
+	m.checkForeignPunish(op, f, kv, res, prev, cur)
+	// --- w-coreb: end ---
 	// ---- C06 bond decrease classification
 	for i, cq := range cur.Seqs {
 		pq, ok := prev.Seqs[i]
@@ -911,6 +914,9 @@ func (c *coreGen) genFraud(s *coreSnap, ri int, members []int) string {
 			c.r.Hit("fraud/blocked-rewardee")
 		}
 	}
+	// --- w-coreb: punish a sequencer of ANOTHER rollapp than the forked one (core_c03x_test.go) ---
+	punish, rewardee = c.genFraudForeignPunish(s, ri, punish, rewardee)
+	// --- w-coreb: end ---
 	return fmt.Sprintf("fraud r%d h=%d rev=%d punish=%s rewardee=%s auth=%s", ri, h, rev, punish, rewardee, auth)
 }
 
